@@ -17,6 +17,10 @@ INLINE_ATOMS = [
     "[r]", "[r][]", "[t][r]", "[R]", "](u)", "](<u v> \"t\")", "](/u 't')", "]( /u (t) )", "[x](javascript:1)", "![i](/s \"t\")",
     "  ", " ", " ", " ", "\t", "  \n", "\n", "\n", "#", "=", "-", "+", "1.", "^", "{", "}", "\xa0", " ", "​",
     "\x0b", "\x0c", "\x00", "�", "́", "\U0001f600", " ", "¿", "«", "…", "–",
+    # characters str.splitlines() / str.isspace() treat specially but Markdown does not (and vice versa)
+    "\x1c", "\x1d", "\x1e", "\x85", "\u2028", "\u2029", "\u200b", "\u2060", "\ufeff", "\u180e", "\u3000", "\u1680",
+    "~~~", "~~a~~~", "[~~b~~~](u)", "*\u200bz\u200b*",
+    "<o'brien@ex.com>", "<a--b@c.de>", "<x..y@z.uv>", "javascript:q", "data:text/html,r", "1\u00b2", "\u2460", "\u0662", "[*x <http://a.b>](u) y*", "[<m@n.o> ~~s](v) t~~",
 ]
 
 LINE_STARTS = [
@@ -263,6 +267,8 @@ LINE_VOCAB_EXTRA = [
     "   ", "     ", ">\t", ">  ", "> >", "- > a", "> - a", "-\t", "+", "2)", "10. x", "   - c", "      d", "####### n", "## h ##",
     "= ", "--", "***", "_ _ _", "[r]: <", "[r]:", "[r]: /u 't", "'", "</div>", "<!--", "-->", "<?", "<pre>", "|", "|-", ":-:",
     "a|", "`", "``", "\\", "*a", "a*", "![", "](", "&amp;", "\x00", "\xa0", "\x0b", "> [r]: /u", "- [r]: /u", ">    c", "-     c",
+    "1². x", "1¹) y", "1٢. z", "2①. w", "٣. v", "\ufeff    code", "\ufeff<div>", "\ufeff# h", "* + * * *", "- 1. - - -", "* 2) ***", "- + - -",
+    "[f]: /u \"a\\", "b\"", "> [f]: /u 'c\\", "> d'", "javascript:x www.ex.com", "file:///e a@b.co", "\\*www.ex.com and javascript:y",
     ">\u2003\t", ">\x0b\tq", "1.\u3000\tz", "#\xa0\th", "```\xa0i", ">\x85\t", "> \xa0\tx", "\xa0>\tx", "-\u2028\tl", "\x0c- a", "\u2029", "a\x1cb",
 ]
 
